@@ -87,3 +87,13 @@ Theorem c07_header_writes_reviewed :
   forallb (fun e => SurfaceExpected.header_reviewed (snd e)) SurfaceExpected.expected_header_surface = true.
 Proof. vm_compute. reflexivity. Qed.
 Print Assumptions c07_header_writes_reviewed.
+
+(* ---- how the legacy header flags reach the conversion ---- *)
+From V.Gen Require Wiring.
+
+(* the tags binding each legacy header option to its flag and configuration key, REGENERATED from pkg/apis/options on
+   this run, are regular: every option reads its own flag (see c18_option_tags_regular) *)
+Theorem c07_option_tags_regular :
+  Wiring.option_tags_irregular = [] /\ Wiring.option_flags_unregistered = [] /\ Wiring.option_flags_untagged = [].
+Proof. repeat split; vm_compute; reflexivity. Qed.
+Print Assumptions c07_option_tags_regular.
